@@ -310,6 +310,10 @@ func bundleRead(args []string) error {
 			return err
 		}
 		id++
+		if !announce(id) {
+			emit(map[string]interface{}{"case": "mc" + strconv.Itoa(id), "kind": "rd", "file": v.File, "verdict": "panic", "note": v.Note + "/base" + strconv.Itoa(v.Base) + "/fatal", "b2": emptyB()})
+			return nil
+		}
 		rdEvent("mc"+strconv.Itoa(id), unints(v.File), v.Note+"/base"+strconv.Itoa(v.Base))
 		return nil
 	})
